@@ -160,7 +160,17 @@ impl Storage {
             "Recovering from wal checkpoint {}",
             earliest_uncommited_wal_id
         );
-        let wal_files = writer.list(wal_dir).unwrap();
+        let mut wal_files = writer.list(wal_dir).unwrap();
+        // A crash can leave the temporary file of an interrupted write behind. It is not a WAL
+        // segment: the write was never acknowledged, so it is dropped rather than loaded.
+        wal_files.retain(|path| {
+            let is_segment = path.extension().map(|ext| ext == "wal").unwrap_or(false);
+            if !is_segment && !readonly {
+                log::info!("Deleting stale file {}", path.display());
+                let _ = writer.delete(path);
+            }
+            is_segment
+        });
         let num_wal_files = wal_files.len();
         log::info!("Found {} wal segments", wal_files.len());
 
